@@ -116,7 +116,10 @@ def run(tier):
                     "preemption_bound": bound, "bound_completed_without_cap": r.get("bound_completed", bound), "capped": r.get("capped", False), "executions": r["executions"], "distinct_outcomes": len(r["outcomes"]), "branching_points": r["max_points"]})
     rep.cov["schedules"] = sched
     depth = 6 if tier == "thorough" else 4
-    tot = monitors.run_models(rep, models(tier), depth, dedup_depth_plain=(depth - 2), time_cap=900 if tier == "thorough" else 100)
+    tot = monitors.run_models(rep, [m for m in models(tier) if not m.name.startswith("long-silences")], depth, dedup_depth_plain=(depth - 2), time_cap=900 if tier == "thorough" else 100)
+    # (a pass of its own, so that its depth does not depend on how much of the shared time budget the larger models have used)
+    t_ls = monitors.run_models(rep, [m for m in models(tier) if m.name.startswith("long-silences")], depth, time_cap=400 if tier == "thorough" else 60)
+    monitors.merge_tot(tot, t_ls)
     # the same monitors on SCTP connections (accept / sctp_send / close branches of the node)
     t_sctp = monitors.run_models(rep, monitors.sctp_copies(models(tier), ('inbound-ready', 'inbound-unidentified', 'outbound')), depth - 1, time_cap=400 if tier == "thorough" else 25)
     monitors.merge_tot(tot, t_sctp)
